@@ -48,6 +48,10 @@ type constructorNode struct {
 	// Whether the constructor owned by this node was already called.
 	called bool
 
+	// Whether the constructor owned by this node is currently being built,
+	// i.e. its arguments are being resolved or it is being called.
+	onStack bool
+
 	// Type information about constructor parameters.
 	paramList paramList
 
@@ -144,6 +148,19 @@ func (n *constructorNode) Call(c containerStore) (err error) {
 	if n.called {
 		return nil
 	}
+
+	if n.onStack {
+		// The dependencies of this constructor lead back to itself through
+		// a path that the per-scope graphs cannot see (for example through
+		// constructors exported from sibling scopes, or through a
+		// decorator). Fail instead of recursing forever.
+		return errCycleDetected{
+			Path:  []cycleErrPathEntry{{Key: key{t: n.ctype}, Func: n.location}},
+			scope: n.s,
+		}
+	}
+	n.onStack = true
+	defer func() { n.onStack = false }()
 
 	if err := shallowCheckDependencies(c, n.paramList); err != nil {
 		return errMissingDependencies{
